@@ -209,8 +209,33 @@ impl Prop for C12 {
 			&& strings_over(&["a", "/", "\u{e9}", ":", "%41"], l2, &mut |s| {
 				(if s.is_ascii() { emit(Fam::Uri, s.clone(), f) } else { true }) && emit(Fam::Iri, s, f)
 			});
+		// every Unicode scalar value inside, alone as, and at the end of a segment (IRI family):
+		// closes "some byte of a multi-byte character is mistaken for a delimiter"
+		let mut ok = ok;
 		if ok {
-			vec!["all strings <= L1 over {a,/,.} x all schedules", "all strings <= L2 items over {a,/,é,:,%41} x all schedules"]
+			'sweep: for c in 0xA0u32..0x110000 {
+				if c as usize % nshards != shard {
+					continue;
+				}
+				let ch = match char::from_u32(c) {
+					Some(ch) => ch,
+					None => continue,
+				};
+				if !crate::oracle::abnf::is_ucschar(c) {
+					continue;
+				}
+				for (abs, pat) in [(false, 0u8), (true, 1)] {
+					let s = if pat == 0 { format!("a{ch}b/{ch}/x{ch}") } else { format!("/{ch}{ch}//{ch}a/") };
+					let _ = abs;
+					if !f(Case { fam: Fam::Iri, path: s, schedule: Some(vec![true, false, false, true]) }, false) {
+						ok = false;
+						break 'sweep;
+					}
+				}
+			}
+		}
+		if ok {
+			vec!["all strings <= L1 over {a,/,.} x all schedules", "all strings <= L2 items over {a,/,é,:,%41} x all schedules", "every ucschar scalar value inside / alone as / at the end of a segment"]
 		} else {
 			vec![]
 		}
